@@ -59,10 +59,11 @@ var families = []struct{ re, name string }{
 	{`field and method with the same name`, "field-method-collision"},
 	{`cannot use iota outside constant declaration`, "iota-outside-const"},
 	{`invalid map key type`, "invalid-map-key-type"},
+	{`invalid slice indices`, "invalid-slice-indices"},
 	{`invalid recursive type|invalid cycle|initialization cycle`, "cycle"},
 	{`cannot use _ as value|cannot refer to blank`, "blank-as-value"},
 	{`assignment mismatch|wrong argument count|not enough (arguments|return values)|too many (arguments|return values)`, "count-mismatch"},
-	{`undefined|undeclared`, "undefined"},
+	{`(^|: )undefined: | undefined \(|undeclared name`, "undefined"},
 	{`\(type\) is not an expression|is not an expression`, "type-as-expression"},
 	{`cannot convert`, "invalid-conversion"},
 	{`must be integer|invalid argument: index`, "index-type"},
